@@ -528,6 +528,12 @@ func illFormed(t *treq) []mutation {
 			out = append(out, mutation{argv: clone()[:i+1], class: "option-without-value"})
 		}
 	}
+	// a clause with two values (LIMIT offset count) cut after the first one
+	for i := 2; i+1 < len(t.args); i++ {
+		if t.args[i-1].kind == 'o' && t.args[i].kind == 'I' && !t.args[i].req && t.args[i+1].kind == 'I' && !t.args[i+1].req {
+			out = append(out, mutation{argv: clone()[:i+1], class: "option-without-value"})
+		}
+	}
 	// 2. each value position replaced by a null bulk
 	for i := 1; i < len(t.args); i++ {
 		k := t.args[i].kind
